@@ -47,11 +47,11 @@ PLANS = {
     "C16": dict(
         quick=dict(mc=["core2"], gens=[dict(maxlog=2, num=60, depth=24, lean=True, focus="commit")],
                    per_beh=2, fs=[1, 3, 25, 60], vts=["tiny", "edge", "ovf", "mixed", "mixed2", "big"], embs=api.EMBEDDINGS_QUICK,
-                   decode=True, tiny_ht=True),
+                   decode=True, tiny_ht=True, wide=dict(runs=3, fs=[2000, 2400])),
         thorough=dict(mc=["core", "core2"], gens=[dict(maxlog=2, num=500, depth=30, lean=True, focus="commit"),
                                                   dict(maxlog=1, num=200, depth=30, lean=False, focus="commit")],
                       per_beh=4, fs=[1, 3, 25, 60, 400], vts=["tiny", "edge", "ovf", "mixed", "mixed2", "big", "huge"],
-                      embs=api.EMBEDDINGS_ALL, decode=True, tiny_ht=True)),
+                      embs=api.EMBEDDINGS_ALL, decode=True, tiny_ht=True, wide=dict(runs=12, fs=[1500, 2000, 2400, 3000]))),
     "C19": dict(
         quick=dict(mc=["core2"], gens=[dict(maxlog=2, num=60, depth=24, lean=True, focus="commit", templates="rollback")],
                    per_beh=2, fs=[1, 3, 25, 60], vts=["ovf", "mixed", "mixed2", "big", "edge"], embs=api.EMBEDDINGS_QUICK,
@@ -351,6 +351,35 @@ def run_plan(pid, tier, seed, extra_cov=None, t0=None):
             classes[run] = "ml2_rb1"
             script_by_run[run] = sc
             cycle_runs.append(run)
+            distinct.add(C.sha([beh, store, conc]))
+    if plan.get("wide"):
+        # wide trees: thousands of leaves under several bottom-level branch nodes, commits by several workers that erase
+        # whole key ranges next to ranges they rewrite (branch nodes become underfull and merge with a neighbour another
+        # worker has just rewritten).  Legal NomtApi behaviours; every image is decoded.
+        consts = consts_by_class.get("ml2_rb1") or api.gen_constants(maxlog=2)
+        consts_by_class.setdefault("ml2_rb1", consts)
+        keys = sorted(consts["Keys"])
+        N = {k: "NoCh" for k in keys}
+        a, b, c = keys[0], keys[1], keys[2]
+        shapes = [[{a: "v1", b: "v1", c: "v1"}, {a: "Nil", c: "v2"}, {b: "Nil"}, {a: "v1", c: "v1"}, "reopen", {c: "Nil", b: "v1"}],
+                  [{a: "v1", b: "v1", c: "v1"}, {b: "Nil", c: "v2"}, {a: "Nil", c: "v1"}, "reopen", {a: "v1", b: "v1"}, {c: "Nil", a: "v2"}],
+                  [{a: "v1", b: "v1", c: "v1"}, {a: "v2", b: "Nil"}, {a: "Nil", b: "v1", c: "v2"}, {b: "Nil"}, "reopen", {c: "Nil"}]]
+        for wi in range(plan["wide"]["runs"]):
+            beh = []
+            for w in shapes[wi % len(shapes)]:
+                if w == "reopen":
+                    beh += [dict(a="Close"), dict(a="Reopen")]
+                else:
+                    beh += [dict(a="Begin", s=1, chain=[], res="Ok"), dict(a="Finish", s=1, f=1, w=dict(N, **w)), dict(a="Commit", f=1, res="Ok")]
+            store, conc = api.concretise(beh, consts, rng, f=rng.choice(plan["wide"]["fs"]), emb="top", vt="tiny")
+            conc["vtable"] = {"v1": "inline-max", "v2": "small", "v3": "tiny"}
+            store.update(hashtable_buckets=16000, commit_concurrency=[2, 3, 2, 4][wi % 4])
+            run += 1
+            sc = api.make_script(run, beh, store, conc)
+            sc["decode"] = True
+            scripts[run] = sc
+            classes[run] = "ml2_rb1"
+            script_by_run[run] = sc
             distinct.add(C.sha([beh, store, conc]))
     if os.environ.get("VERIF_DEBUG_ONLY_RUNS"):
         # debugging aid: regenerate the plan deterministically, keep only the named runs (and their twins)
